@@ -298,6 +298,11 @@ def parse (buf : List Byte) : PRes :=
   | .oob => .oob
   | .nofuel => .nofuel
 
+/-- `parse` before the column is computed: a failure still carries the cursor (`pos.pos`) at which
+    `syntaxError` was called -/
+def parseRaw (buf : List Byte) : Res Val :=
+  (readToken 1 buf).bind fun st => (parseValue (parseFuel buf) st).bind fun x => .ok x.1
+
 /-! ### serialisation -/
 
 /-- `"0123456789abcdef"[n]` (generated alphabet) -/
